@@ -205,7 +205,9 @@ def run_c10(ctx):
     # ---- two recorders on one directory (motion + test recording, as handleConn wires them), started in the same
     #      millisecond and a few milliseconds apart: every *.cptv must still be a complete recording
     two_runs = 0
-    for ops in ["swwwSWWWpP", "sSwWwWwWpP", "szSwWwWwWpzP", "swwSWWpzswwPp", "xswwwpxSWWP", "swwxSWWPp"]:
+    for ops in ["swwwSWWWpP", "sSwWwWwWpP", "szSwWwWwWpzP", "swwSWWpzswwPp", "xswwwpxSWWP", "swwxSWWPp",
+                # 'h': a start whose header the CPTV writer rejects (300-byte device name), alone and next to recordings
+                "hswwwp", "swwhwwp", "swwwphz"]:
         for rep in range(3 if tier == "quick" else 20):
             kd = ctx.path("two", "%s_%d" % (ops, rep), "x")[:-2]
             os.makedirs(kd, exist_ok=True)
